@@ -461,8 +461,10 @@ rules are `Rules.current`, the earlier ones are kept to show that the theorems d
 structure Rules where
   /-- `handle_process_results`: how a worker's later answer is combined with its pending one -/
   combine : Option Results → Results → Results
-  /-- `update_await_results`: what happens to the awaiter when the answer carries no result -/
+  /-- `update_await_results`: how the awaiter is woken after the answer's results have been applied -/
   emptyWake : WorkerSt → Pid → WorkerSt
+  /-- … only if the answer carries no result at all (before fix 755cedc) -/
+  wakeOnlyIfEmpty : Bool
 
 /-- `handle_process_results`, parametric in how a worker's answers are combined. -/
 def handleProcResultsWith (combine : Option Results → Results → Results)
@@ -525,7 +527,7 @@ def applyResults (w : WorkerSt) (awaiter : Pid) : Results → WorkerSt
   | (t, some r) :: rest => applyResults (w.notifyResult awaiter t r) awaiter rest
   | (_, none) :: rest => applyResults w awaiter rest
 
-def handleCmdWith (emptyWake : WorkerSt → Pid → WorkerSt) (s : Sys) (i : Wid) : Cmd → Sys
+def handleCmdWith (R : Rules) (s : Sys) (i : Wid) : Cmd → Sys
   | .misc => s
   | .start p => s.setWk i ((s.wk i).setProc p (Proc.sleeping p))
   | .resume p fn =>
@@ -567,7 +569,8 @@ def handleCmdWith (emptyWake : WorkerSt → Pid → WorkerSt) (s : Sys) (i : Wid
     { (s.setWk i q.1).pushEvt i (.procResults a q.2) with reported := s.reported ++ reportedOf a q.2 }
   | .updateAwait a rs =>
     let w := s.wk i
-    let w' := if rs.any (fun tr => tr.2.isSome) then applyResults w a rs else emptyWake w a
+    let w1 := applyResults w a rs
+    let w' := if R.wakeOnlyIfEmpty && rs.any (fun tr => tr.2.isSome) then w1 else R.emptyWake w1 a
     { s.setWk i w' with learned := s.learned ++ reportedOf a rs }
   | .getResult req p =>
     let w := s.wk i
@@ -579,10 +582,10 @@ def handleCmdWith (emptyWake : WorkerSt → Pid → WorkerSt) (s : Sys) (i : Wid
       | none => s.setWk i { w with resultReqKeys := sinsert w.resultReqKeys p, resultReqs := upd w.resultReqs p (w.resultReqs p ++ [req]) }
 
 /-- worker `i` consumes its first queued command -/
-def cmdStep1With (emptyWake : WorkerSt → Pid → WorkerSt) (s : Sys) (i : Wid) : Sys :=
+def cmdStep1With (R : Rules) (s : Sys) (i : Wid) : Sys :=
   match s.cmdQ i with
   | [] => s
-  | c :: rest => handleCmdWith emptyWake { s with cmdQ := upd s.cmdQ i rest } i c
+  | c :: rest => handleCmdWith R { s with cmdQ := upd s.cmdQ i rest } i c
 
 /-! #### executor step -/
 
@@ -708,28 +711,31 @@ def envStepWith (combine : Option Results → Results → Results) (s : Sys) (vi
     iter (fun a => envStep1With combine a w) (min (vis.getD w (acc.evtQ w).length) (acc.evtQ w).length) acc) s
 
 /-- `Worker::step`. -/
-def workerStepWith (emptyWake : WorkerSt → Pid → WorkerSt) (s : Sys) (i : Wid) (vis fuel : Nat) (ordQ ordE : List Pid) : Sys :=
-  let s1 := iter (fun a => cmdStep1With emptyWake a i) (min vis (s.cmdQ i).length) s
+def workerStepWith (R : Rules) (s : Sys) (i : Wid) (vis fuel : Nat) (ordQ ordE : List Pid) : Sys :=
+  let s1 := iter (fun a => cmdStep1With R a i) (min vis (s.cmdQ i).length) s
   checkStep (execStep s1 i fuel ordQ) i ordE
 
 def sysStepWith (R : Rules) (s : Sys) : Choice → Sys
   | .env vis => envStepWith R.combine s vis
-  | .worker i vis fuel ordQ ordE => if i < s.n then workerStepWith R.emptyWake s i vis fuel ordQ ordE else s
+  | .worker i vis fuel ordQ ordE => if i < s.n then workerStepWith R s i vis fuel ordQ ordE else s
   | .tick ms => { s with now := s.now + ms }
 
-/-- The code as it is now: answers merged (b8eb814), an empty answer wakes only a select (c08a680). -/
-def Rules.current : Rules := { combine := mergeAnswer, emptyWake := WorkerSt.wakeSelecting }
+/-- The code as it is now: answers merged (b8eb814); every await answer wakes the awaiter's select
+(755cedc), and only a select (c08a680). -/
+def Rules.current : Rules := { combine := mergeAnswer, emptyWake := WorkerSt.wakeSelecting, wakeOnlyIfEmpty := false }
 /-- Before fix b8eb814: a later answer of a worker replaces its pending one. -/
 def Rules.replaceAnswers : Rules := { Rules.current with combine := replaceAnswer }
+/-- Before fix 755cedc: the awaiter is woken only by an answer without any result. -/
+def Rules.wakeOnlyOnEmptyAnswer : Rules := { Rules.current with wakeOnlyIfEmpty := true }
 /-- Before fix c08a680: an empty answer calls `mark_active`, which also un-parks a spawner. -/
-def Rules.markActiveOnEmpty : Rules := { Rules.current with emptyWake := WorkerSt.markActive }
+def Rules.markActiveOnEmpty : Rules := { Rules.current with emptyWake := WorkerSt.markActive, wakeOnlyIfEmpty := true }
 
-abbrev handleCmd := handleCmdWith WorkerSt.wakeSelecting
-abbrev cmdStep1 := cmdStep1With WorkerSt.wakeSelecting
+abbrev handleCmd := handleCmdWith Rules.current
+abbrev cmdStep1 := cmdStep1With Rules.current
 abbrev handleEvent := handleEventWith mergeAnswer
 abbrev envStep1 := envStep1With mergeAnswer
 abbrev envStep := envStepWith mergeAnswer
-abbrev workerStep := workerStepWith WorkerSt.wakeSelecting
+abbrev workerStep := workerStepWith Rules.current
 
 /-- The system as the code is now. -/
 def sysStep : Sys → Choice → Sys := sysStepWith Rules.current
